@@ -53,6 +53,14 @@ type MultiClusterSubjectAccessReviewAuthorizer struct {
 	decisionOnError authorizer.Decision
 }
 
+// cacheKey binds a decision cache to the cluster instance it was created for, so
+// that a decision obtained from one cluster is never used for a host which now
+// resolves to another cluster (e.g. a server name moved between clusters).
+type cacheKey struct {
+	host    string
+	cluster *clusters.ClusterInfo
+}
+
 func NewMultiClusterSubjectAccessReviewAuthorizer(clientProvider clusters.ClientProvider, allowCacheTTL, denyCacheTTL time.Duration) authorizer.Authorizer {
 	return &MultiClusterSubjectAccessReviewAuthorizer{
 		clientProvider:  clientProvider,
@@ -76,14 +84,15 @@ func (a *MultiClusterSubjectAccessReviewAuthorizer) Authorize(ctx context.Contex
 		return a.decisionOnError, "", err
 	}
 
-	c, loaded := a.caches.Load(host)
+	ck := cacheKey{host: host, cluster: cluster}
+	c, loaded := a.caches.Load(ck)
 	if !loaded {
-		c, loaded = a.caches.LoadOrStore(host, cache.NewLRUExpireCache(8192))
+		c, loaded = a.caches.LoadOrStore(ck, cache.NewLRUExpireCache(8192))
 		// destry cache when cluster stopped
 		if !loaded {
 			go func() {
 				<-cluster.Context().Done()
-				a.caches.Delete(host)
+				a.caches.Delete(ck)
 			}()
 		}
 	}
